@@ -11,6 +11,19 @@ Guard of `commute_succeeds_replace` (lean/Props/C17.lean): `commuteGuard = insid
 touch.  Tie: both halves computed from the real `ResolvedPos` data (`inside_left`, `inside_right` below) are compared
 with the model's values (driver op `commuteGuard`) on every separated pair of replace steps that both apply.  Relational oracle: guard true  =>  both rebased steps apply in the
 real code and give equal documents (a failure there is *not* excused by the open finding C17-parent-retyped).
+The same guard with `(from, to, slice)` of a replace-around step in place of one of the two replace steps
+(`commute_succeeds_around`): same tie, same oracle.
+
+Replace-around steps (last section of lean/Props/C17.lean):
+* `aroundShape` (lean/PM/CommuteGuard.lean, hypothesis `AroundShape` of the theorems): computed on the real step
+  object (`around_shape` below) and by the model (driver op `aroundShape`), compared, and required to be true for
+  every replace-around step a high-level operation emits.
+* the whole square of the model (driver op `commuteSquare`: both steps applied, each rebased over the other's map,
+  the rebased steps applied) is compared with the real square — rebased steps and both final documents, exactly —
+  for every pair with a replace-around step whose partner lies before its range, after it, or strictly inside its
+  kept gap.  For partners inside the gap (not part of the search population, whose notion of "separated" uses
+  `from`/`to`) the conclusions of `rebase_around_separated` / `commute_replace_around` / `commute_around_nodeStep`
+  are checked on the real code: neither step dropped; if all four applications succeed the documents are equal.
 """
 from prosemirror.transform import (
     AddMarkStep,
@@ -45,6 +58,31 @@ def separated(a, b):
     if sa is None or sb is None:
         return False
     return sa[1] < sb[0] or sb[1] < sa[0]
+
+
+def spine(frag, left):
+    """`spineL` / `spineR` of lean/PM/Replace.lean on a real fragment: how deep the first (last) children are nodes with content"""
+    n = 0
+    while frag.child_count:
+        c = frag.first_child if left else frag.last_child
+        if c.is_text or c.type.is_leaf:
+            break
+        n += 1
+        frag = c.content
+    return n
+
+
+def around_shape(st):
+    """`aroundShape` of lean/PM/CommuteGuard.lean on a real ReplaceAroundStep"""
+    sl = st.slice
+    return bool(sl.open_start <= spine(sl.content, True) and sl.open_end <= spine(sl.content, False)
+                and st.insert <= sl.size and st.from_ <= st.gap_from <= st.gap_to <= st.to)
+
+
+def in_gap(a, b):
+    """`b` lies strictly inside the kept gap of the replace-around step `a`"""
+    sb = span(b)
+    return isinstance(a, ReplaceAroundStep) and sb is not None and a.gap_from < sb[0] and sb[1] < a.gap_to
 
 
 def inside_left(doc, l, r):
@@ -112,7 +150,30 @@ def run(ctx):
     reqs, metas = [], []
     greqs, gmetas = [], []
 
+    sreqs, smetas = [], []     # commuteSquare / aroundShape
+    shapes_seen = set()
+
     def flush():
+        souts = ctx.driver.run(sreqs) if sreqs else []
+        for req, meta, out in zip(sreqs, smetas, souts):
+            if req["op"] == "aroundShape":
+                replay, impl_shape = meta
+                ctx.count("aroundShape:model_requests")
+                if out.get("ok") is not impl_shape:
+                    ctx.mismatch("aroundShape", replay, impl_shape, out)
+                ctx.count("aroundShape:%s" % impl_shape)
+                if not impl_shape:
+                    # the hypothesis of the replace-around theorems fails for a step the library built
+                    ctx.mismatch("aroundShape-holds", replay, True, impl_shape)
+                continue
+            replay, info, impl_sq, kind = meta
+            ctx.count("square:model_requests")
+            mo = out.get("ok")
+            if not isinstance(mo, list) or len(mo) != 4 or mo != impl_sq:
+                ctx.mismatch("commuteSquare", replay, impl_sq, out)
+                continue
+            ctx.count("square:%s:%s" % (kind, "all-four-apply" if mo[2] is not None and mo[3] is not None else "an-order-fails"))
+        del sreqs[:], smetas[:]
         gouts = ctx.driver.run(greqs) if greqs else []
         for (replay, impl_guard, converged), out in zip(gmetas, gouts):
             ctx.count("guard:model_requests")
@@ -165,9 +226,56 @@ def run(ctx):
                 name, st = first_step(rng, info, d, docs)
                 if st is not None and not isinstance(st, DocAttrStep):
                     cands.append((name, st))
+            for (nm, st_) in cands:
+                if isinstance(st_, ReplaceAroundStep):
+                    key = (info.name, repr(st_.to_json()))
+                    if key not in shapes_seen:
+                        shapes_seen.add(key)
+                        sreqs.append({"op": "aroundShape", "step": info.step(st_)})
+                        smetas.append(({"schema": info.name, "doc": d.to_json(), "op": nm, "step": st_.to_json()}, around_shape(st_)))
+
+            def square(a, b, kind, replay):
+                """the real square of (a, b) on d, encoded like the model's answer to `commuteSquare`"""
+                da, db = apply_doc(a, d), apply_doc(b, d)
+                sta, a2 = outcome(lambda: a.map(b.get_map()))
+                stb, b2 = outcome(lambda: b.map(a.get_map()))
+                if sta != "ok" or stb != "ok":
+                    return None
+                dab = apply_doc(b2, da) if da is not None and b2 is not None else None
+                dba = apply_doc(a2, db) if db is not None and a2 is not None else None
+                enc = [None if a2 is None else info.step(a2), None if b2 is None else info.step(b2),
+                       None if dab is None else info.node(dab), None if dba is None else info.node(dba)]
+                sreqs.append({"op": "commuteSquare", "s": info.lean_id, "doc": info.node(d), "a": info.step(a), "b": info.step(b)})
+                smetas.append((replay, info, enc, kind))
+                return da, db, a2, b2, dab, dba
+
             for i in range(len(cands)):
                 for j in range(i + 1, len(cands)):
                     (na, a), (nb, b) = cands[i], cands[j]
+                    for (x, y, nx, ny) in ((a, b, na, nb), (b, a, nb, na)):
+                        if in_gap(x, y):
+                            # a step strictly inside the kept gap of a replace-around step: the theorems' conclusions
+                            # on the real code, and the model's square against the real one
+                            greplay = {"schema": info.name, "doc": d.to_json(), "a": x.to_json(), "b": y.to_json(), "ops": [nx, ny], "position": "gap"}
+                            ctx.count("gap-pair:" + type(y).__name__)
+                            sq = square(x, y, "gap", greplay)
+                            if sq is None:
+                                ctx.mismatch("around-gap:map-raises", greplay, "Step.map returns", "raised")
+                                break
+                            da_, db_, x2, y2, dxy, dyx = sq
+                            if da_ is None or db_ is None:
+                                break
+                            if x2 is None or y2 is None:
+                                ctx.mismatch("around-gap=>kept", greplay, "both rebased steps kept", {"a_rebased": x2 and x2.to_json(), "b_rebased": y2 and y2.to_json()})
+                            elif dxy is not None and dyx is not None and not dxy.eq(dyx):
+                                ctx.mismatch("around-gap=>converge", greplay, "equal documents", {"ab": dxy.to_json(), "ba": dyx.to_json()})
+                            else:
+                                ctx.count("gap-pair:" + ("converged" if dxy is not None and dyx is not None else "an-order-fails"))
+                                if dxy is None or dyx is None:
+                                    # not promised by the proved theorems (they assume all four applications succeed): the
+                                    # replace-around step re-wraps / re-types the node the other step works in
+                                    ctx.count("gap-pair:an-order-fails:%s/%s" % (nx, ny))
+                            break
                     if not separated(a, b):
                         # overlapping or touching ranges: the property promises nothing, but the model of Step.map is
                         # exact, so it is tied here too (this is where steps get dropped)
@@ -194,6 +302,17 @@ def run(ctx):
                         continue
                     dab, dba = apply_doc(b2, da), apply_doc(a2, db)
                     replay["a_rebased"], replay["b_rebased"] = a2.to_json(), b2.to_json()
+                    if isinstance(a, ReplaceAroundStep) or isinstance(b, ReplaceAroundStep):
+                        square(a, b, "outside", replay)
+                    n_around = isinstance(a, ReplaceAroundStep) + isinstance(b, ReplaceAroundStep)
+                    if isinstance(a, (ReplaceStep, ReplaceAroundStep)) and isinstance(b, (ReplaceStep, ReplaceAroundStep)) and n_around == 1:
+                        # the guard with (from, to, slice) of the replace-around step in place of a replace step
+                        l, r = (a, b) if a.to < b.from_ else (b, a)
+                        stg, g = outcome(lambda: (inside_left(d, l, r), inside_right(d, l, r)))
+                        if stg == "ok":
+                            ctx.count("guard-around:" + ("holds" if (g[0] or g[1]) else "fails"))
+                            greqs.append({"op": "commuteGuard", "doc": info.node(d), "a": info.step(l), "b": info.step(r)})
+                            gmetas.append((replay, g, dab is not None and dba is not None and dab.eq(dba)))
                     if type(a) is ReplaceStep and type(b) is ReplaceStep:
                         l, r = (a, b) if a.to < b.from_ else (b, a)
                         stg, g = outcome(lambda: (inside_left(d, l, r), inside_right(d, l, r)))
